@@ -13,6 +13,7 @@ EXPLANATION = (
     "for an absent value. [LOOKUP-INV] lookup_dict_encode_* is the inverse of master_dict[*] where names are unique. "
     "This decides the structural necessary conditions only; The encode_number residual is evaluated as an exact piecewise-affine function of the tick count (piece.py): interval returned, raise type outside it, wrap constant for negative values -- any spelling of the range test and of the two's-complement step. UNDECIDED: exactness of round(n*r/r)==n for every n < 2^48 and every "
     "resolution, the double-rounding clause for 64-bit fields (numeric facts, not shape facts)."
+    ' GEN-ENC / ENC-MASK: when the returned bytes are not <int>.to_bytes(..) of OR-ed masked pieces (sums, modulo, struct.pack, joined parts), the return term is read as a vector of bits, each a constant 0 or bit k of one producer; maximal runs give (producer, width, position) rows that are checked like the OR-pieces.'
 )
 ASSUMPTIONS = ["CPython ast parser", "canboat.json is the oracle", "sym.py partial evaluation (constant folding, helper inlining)",
                "Python int/round semantics: int() truncates, round() rounds to nearest"]
